@@ -265,7 +265,8 @@ class EquationParser(object):
         """
         for var, eqn in self.Endogenous:
             rhs = self.CleanupRightHandSide(eqn)
-            if rhs in self.AllEquations:
+            if rhs in self.AllEquations and var not in self.InitialConditions:
+                # (A variable with an initial condition is kept: substituting it away would drop its k=0 value.)
                 # We have a case where VAR1 = VAR2.  Replace occurrences of VAR1 by VAR2 in all equations.
                 # BUT: Must break loops like:  (x=y), (y=x), since they will not converge
                 if var == self.CleanupRightHandSide(self.AllEquations[rhs]):
